@@ -366,6 +366,7 @@ def work(item):
         for itg in form.integrals():
             integrand_sum += physical_truth(itg.integrand(), cell, G, plus, minus, shared, fields)
         truth = integrand_sum
+        exact_rule = "vertexrule" not in name
         scale = max(abs(truth), 1e-3)
         ref = None
         for sp in syms:
@@ -400,7 +401,9 @@ def work(item):
                     res["code_pairs_seen"].add((fcell, codes))
                     if ref is None:
                         ref = val
-                    dev = max(abs(val - ref), abs(val - truth)) / scale
+                    # the physical-space quadrature is a second oracle only where the form's rule integrates the polynomial integrand exactly
+                    # (the vertex scheme does not); numbering independence itself (agreement with the identity numbering) is always demanded
+                    dev = (max(abs(val - ref), abs(val - truth)) if exact_rule else abs(val - ref)) / scale
                     res["maxdev"] = max(res["maxdev"], dev)
                     if dev > 1e-9 or call.breaches():
                         res["failures"].append(dict(kind="numbering", numbering_plus=list(sp), numbering_minus=list(sm), facets=[lfp, lfm], codes=list(codes),
